@@ -126,7 +126,12 @@ pub fn designspace(f: &SynthFont) -> String {
             if let Some(v) = &inst.style { let _ = write!(s, " stylename=\"{}\"", esc(v)); }
             if let Some(v) = &inst.ps_name { let _ = write!(s, " postscriptfontname=\"{}\"", esc(v)); }
             s.push_str(">\n      <location>\n");
-            for (a, n) in f.axes.iter().zip(&inst.norm) { let _ = writeln!(s, "        <dimension name=\"{}\" xvalue=\"{}\"/>", esc(&a.name), num(a.norm_to_design(*n))); }
+            let all_default = inst.norm.iter().all(|n| *n == 0.0);
+            for (i, (a, n)) in f.axes.iter().zip(&inst.norm).enumerate() {
+                // keep at least one dimension (the reader requires one)
+                if inst.omit_default_dims && *n == 0.0 && !(all_default && i == 0) { continue; }
+                let _ = writeln!(s, "        <dimension name=\"{}\" xvalue=\"{}\"/>", esc(&a.name), num(a.norm_to_design(*n)));
+            }
             s.push_str("      </location>\n    </instance>\n");
         }
         s.push_str("  </instances>\n");
